@@ -3,8 +3,14 @@
   (hmclab/Samplers.py: ParallelSampleSMP.sample, PipeMatrix, the "Parallel communication section"
   of _AbstractSampler._sample_loop).
 
-  * each process runs a straight-line program of local actions, non-blocking sends and blocking
-    receives; one FIFO channel per ordered pair of processes (a duplex OS pipe = two channels);
+  * each process runs a straight-line program of local actions, sends and blocking receives; one
+    FIFO channel per ordered pair of processes (a duplex OS pipe = two channels);
+  * channels have a capacity `cap` (`none` = unbounded, `some c` = at most `c` messages in flight).
+    A real pipe's capacity is in *bytes* (`Connection.send` is a blocking write), so for small models
+    it is effectively unbounded and for large models effectively zero: a send then completes only
+    while the receiver is receiving. Both extremes and everything in between are covered by letting
+    `cap` range over all values: a send is enabled when there is room **or** the channel is empty and
+    the receiver is waiting at the matching receive (rendezvous);
   * `stepP s i` lets process `i` take its next action if it is enabled: the OS scheduler is the
     choice of `i` — any interleaving is a sequence of such choices;
   * a *choreography* is a global script of local steps and communications; its projection onto a
@@ -30,15 +36,33 @@ structure Sys (σ Msg : Type) where
   store : Nat → σ                     -- local state of each process
   chan : Nat → Nat → List Msg         -- `chan i j`: messages in flight from `i` to `j`, oldest first
 
+/-- is the next action of this program a receive from `i`? -/
+def headIsRecvFrom {σ Msg : Type} (l : List (Act σ Msg)) (i : Nat) : Bool :=
+  match l with
+  | Act.recv k _ :: _ => k == i
+  | _ => false
+
+/-- room for one more message in a channel that holds `n` -/
+def room (cap : Option Nat) (n : Nat) : Bool :=
+  match cap with
+  | none => true
+  | some c => decide (n < c)
+
+/-- may `i` complete a send to `j` now? -/
+def sendOk {σ Msg : Type} (cap : Option Nat) (s : Sys σ Msg) (i j : Nat) : Bool :=
+  room cap (s.chan i j).length || ((s.chan i j).isEmpty && headIsRecvFrom (s.prog j) i)
+
 /-- process `i` takes one step, if it can -/
-def stepP {σ Msg : Type} (s : Sys σ Msg) (i : Nat) : Option (Sys σ Msg) :=
+def stepP {σ Msg : Type} (cap : Option Nat) (s : Sys σ Msg) (i : Nat) : Option (Sys σ Msg) :=
   match s.prog i with
   | [] => none
   | Act.loc f :: rest =>
       some { prog := upd s.prog i rest, store := upd s.store i (f (s.store i)), chan := s.chan }
   | Act.send j mk :: rest =>
-      some { prog := upd s.prog i rest, store := s.store,
-             chan := upd2 s.chan i j (s.chan i j ++ [mk (s.store i)]) }
+      if sendOk cap s i j then
+        some { prog := upd s.prog i rest, store := s.store,
+               chan := upd2 s.chan i j (s.chan i j ++ [mk (s.store i)]) }
+      else none
   | Act.recv j use :: rest =>
       match s.chan j i with
       | [] => none
@@ -47,11 +71,11 @@ def stepP {σ Msg : Type} (s : Sys σ Msg) (i : Nat) : Option (Sys σ Msg) :=
                  chan := upd2 s.chan j i ms }
 
 /-- an execution: the scheduler's choices, each of which must be enabled -/
-def runSched {σ Msg : Type} (s : Sys σ Msg) : List Nat → Option (Sys σ Msg)
+def runSched {σ Msg : Type} (cap : Option Nat) (s : Sys σ Msg) : List Nat → Option (Sys σ Msg)
   | [] => some s
-  | i :: is => match stepP s i with
+  | i :: is => match stepP cap s i with
       | none => none
-      | some s' => runSched s' is
+      | some s' => runSched cap s' is
 
 /-- all processes (below `n`) have finished -/
 def allDone {σ Msg : Type} (n : Nat) (s : Sys σ Msg) : Prop := ∀ i, i < n → s.prog i = []
